@@ -1,6 +1,7 @@
 CONSTANTS NS = 3
  NT = 2
  NF = 2
+ Fill = FALSE
 INIT Init
 NEXT Eval
 INVARIANT OnIndex
@@ -14,3 +15,9 @@ INVARIANT CmpDual
 INVARIANT ReduceOrder
 INVARIANT Aggregates
 INVARIANT SumIsAdd
+INVARIANT OpsAgrees
+INVARIANT CmpNoData
+INVARIANT FillNumber
+INVARIANT FillAsOf
+INVARIANT DivZeroFilled
+INVARIANT DivListZero
